@@ -4,7 +4,7 @@ Correspondence: every function of chempy/kinetics/integrated.py against the Floa
 Lean model (Gen/FnIntegrated.lean) under the numpy, math and sympy backends; dimerization_irrev additionally exactly
 (Fractions vs Rat).
 Oracle (real code only, independent of the Lean model): the sympy-backend expression is differentiated with
-sympy.diff and the residual of the documented rate equation is evaluated with 30 digits at the (exact rational value
+sympy.diff and the residual of the documented rate equation is evaluated with 100 digits (mpmath via lambdify) at the (exact rational value
 of the) generated point; the value at t = 0 must be the stated initial concentration; the three backends must all be
 callable and agree.
 """
@@ -82,7 +82,7 @@ class C17(Property):
     props_module = 'ChemModel.Props.C17'
     build_modules = ('ChemModel.Gen.FnIntegrated', 'ChemModel.Basic.Proto')
     driver = 'ChemModel/Driver/C17.lean'
-    n_quick, n_thorough = 420, 6000
+    n_quick, n_thorough = 1400, 30000
     float_tol = 1e-9
     rule = ('per function: rate constants log-uniform in [0.05, 20], concentrations log-uniform in [0.01, 10] (initial product 0 in 20 % of '
             'the cases, otherwise positive), t = 0 in 15 % of the cases else log-uniform in [1e-3, 5]; major/minor at least 5 % apart for '
@@ -173,17 +173,19 @@ class C17(Property):
         names, nres = FUNCS[fn]
         vals = [a[k] for k in names]
         if backend == 'sympy':
-            import sympy
-            expr, _, syms = self._symbolic(fn)
-            sub = dict(zip(syms, [sympy.Rational(t)] + [sympy.Rational(v) for v in vals]))
-            out = []
-            for e in expr:
-                v = sympy.N(e.subs(sub), 30)
-                re_, im_ = v.as_real_imag()
-                if v.has(sympy.nan, sympy.zoo, sympy.oo) :
-                    out.append(float('nan'))
-                else:
-                    out.append(float(re_) if abs(im_) <= 1e-25 * max(1, abs(re_)) else float('nan'))
+            import mpmath
+            _, _, _, F = self._symbolic(fn)
+            with mpmath.workdps(40):
+                res = F(*[mpmath.mpf(x) for x in [t] + vals])[:nres]
+                out = []
+                for v in res:
+                    v = mpmath.mpmathify(v)
+                    if not mpmath.isfinite(v):
+                        out.append(float('nan'))
+                    elif abs(mpmath.im(v)) <= mpmath.mpf('1e-30') * max(1, abs(mpmath.re(v))):
+                        out.append(float(mpmath.re(v)))
+                    else:
+                        out.append(float('nan'))
             return out
         kw = {} if fn == 'dimerization_irrev' else {'backend': backend}
         if fn == 'dimerization_irrev':
@@ -200,7 +202,8 @@ class C17(Property):
         return [float(x) for x in r]
 
     def _symbolic(self, fn):
-        """(expressions, d/dt expressions, symbols) of the sympy backend, all parameters symbolic; cached"""
+        """(expressions, d/dt expressions, symbols, F) of the sympy backend with all parameters symbolic; cached.
+        F(t, *params) evaluates [expressions..., derivatives...] with mpmath at the working precision."""
         if fn not in self._sym:
             import sympy
             from chempy.kinetics import integrated as I
@@ -211,7 +214,8 @@ class C17(Property):
             else:
                 e = getattr(I, fn)(*syms, backend=sympy)
             e = list(e) if nres > 1 else [e]
-            self._sym[fn] = (e, [x.diff(syms[0]) for x in e], syms)
+            d = [x.diff(syms[0]) for x in e]
+            self._sym[fn] = (e, d, syms, sympy.lambdify(syms, e + d, modules='mpmath'))
         return self._sym[fn]
 
     def impl(self, mc):
@@ -242,6 +246,11 @@ class C17(Property):
             return False
         if len(m) != len(io):
             return False
+        if (mc['fn'] == 'binary_irrev_cstr' and all(math.isnan(x) for x in m) and above_steady_state(mc['args'], 1e-9)
+                and mc['backend'] == 'sympy'):
+            # known nan region: real artanh (the model, numpy, math) is undefined; sympy evaluates the complex
+            # continuation, which the model does not describe (recorded as part of the known finding, see oracle)
+            return True
         at = self.float_tol * self._scale(mc['args'])
         return all(close(x, y, self.float_tol, at) for x, y in zip(io, m))
 
@@ -267,29 +276,32 @@ class C17(Property):
             for x, y in zip(vals['numpy'], vals[be]):
                 if not close(x, y, 1e-9, 1e-9 * scale):
                     return '%s(t=%r, %r): backend numpy gives %r, backend %s gives %r' % (fn, t, a, vals['numpy'], be, vals[be])
-        # (2) value at the start = stated initial concentration   (3) rate equation, exact rational point, 30 digits
-        import sympy
-        expr, dexpr, syms = self._symbolic(fn)
-        aq = {k: sympy.Rational(v) for k, v in a.items()}
-        _, init, tstart = rate_equations(fn, [sympy.Integer(0)] * nres, aq)
-        sub0 = dict(zip(syms, [sympy.Rational(tstart)] + [aq[k] for k in names]))
-        sub = dict(zip(syms, [sympy.Rational(t)] + [aq[k] for k in names]))
-        for i in range(nres):
-            v0 = sympy.N(expr[i].subs(sub0), 30)
-            if not (abs(v0 - init[i]) <= sympy.Float('1e-20') * max(scale, 1e-30)):
-                return '%s at the start (t=%s, %r) is %s, stated initial concentration is %s' % (fn, tstart, a, v0, float(init[i]))
-            f0 = self._call(fn, 'numpy', float(tstart), a)[i]
-            if not close(f0, float(init[i]), 1e-12, 1e-12 * scale):
-                return '%s at the start (t=%s, %r, numpy) is %r, stated initial concentration is %r' % (fn, tstart, a, f0, float(init[i]))
-        y = [sympy.N(e.subs(sub), 30) for e in expr]
-        dy = [sympy.N(e.subs(sub), 30) for e in dexpr]
-        rhs, _, _ = rate_equations(fn, y, aq)
-        for i in range(nres):
-            tot = sum(rhs[i])
-            mag = sum(abs(sympy.re(x)) for x in rhs[i]) + abs(sympy.re(dy[i]))
-            if not (abs(dy[i] - tot) <= sympy.Float('1e-18') * max(mag, sympy.Float('1e-30'))):
-                return ('%s(t=%r, %r): component %d has d/dt = %s but the rate equation gives %s'
-                        % (fn, t, a, i, sympy.N(dy[i], 15), sympy.N(tot, 15)))
+        # (2) value at the start = stated initial concentration   (3) rate equation: the sympy-backend expression is
+        # differentiated symbolically (sympy.diff) and both sides are evaluated with 100 digits at the generated point
+        # (tolerance 1e-30 relative to the sum of the magnitudes of the terms + 1e-80 absolute: factors such as
+        # `minor - y` cancel to 1e-20 and less for large t)
+        import mpmath
+        F = self._symbolic(fn)[3]
+        with mpmath.workdps(100):
+            am = {k: mpmath.mpf(v) for k, v in a.items()}
+            _, init, tstart = rate_equations(fn, [mpmath.mpf(0)] * nres, am)
+            v0 = F(tstart, *[am[k] for k in names])[:nres]
+            for i in range(nres):
+                if not (abs(v0[i] - init[i]) <= mpmath.mpf('1e-60') * max(scale, 1e-30)):
+                    return '%s at the start (t=%s, %r) is %s, stated initial concentration is %s' % (
+                        fn, tstart, a, mpmath.nstr(v0[i], 17), float(init[i]))
+                f0 = self._call(fn, 'numpy', float(tstart), a)[i]
+                if not close(f0, float(init[i]), 1e-12, 1e-12 * scale):
+                    return '%s at the start (t=%s, %r, numpy) is %r, stated initial concentration is %r' % (fn, tstart, a, f0, float(init[i]))
+            r = F(mpmath.mpf(t), *[am[k] for k in names])
+            y, dy = r[:nres], r[nres:]
+            rhs, _, _ = rate_equations(fn, y, am)
+            for i in range(nres):
+                tot = sum(rhs[i])
+                mag = sum(abs(x) for x in rhs[i]) + abs(dy[i])
+                if not (abs(dy[i] - tot) <= mpmath.mpf('1e-30') * mag + mpmath.mpf('1e-80')):
+                    return ('%s(t=%r, %r): component %d has d/dt = %s but the rate equation gives %s'
+                            % (fn, t, a, i, mpmath.nstr(dy[i], 15), mpmath.nstr(tot, 15)))
         return None
 
     def _oracle_exact(self, c):
